@@ -31,7 +31,7 @@ func singlePath(c *core.Ctx, rule, construct string, fn *ssa.Function) *ir.Path 
 	if problems(c, rule, construct, an) {
 		return nil
 	}
-	ps := an.AllPaths()
+	ps := dropNilGuardPanics(an.AllPaths())
 	if q := boolIdentity(ps); q != nil {
 		ps = []*ir.Path{q}
 	}
@@ -318,7 +318,7 @@ func monoidRules(c *core.Ctx) {
 				// a hand-written forwarder: Combine(a, b) = m.<semigroup field>.Combine(a, b), nothing else
 				if fn := methodsOf(c, monoidT)["Combine"]; fn != nil && len(fn.Params) == 3 {
 					an := c.Analyze(fn)
-					ps := an.AllPaths()
+					ps := dropNilGuardPanics(an.AllPaths())
 					if len(an.Problems) == 0 && len(ps) == 1 && ps[0].Exit == ir.ExitReturn && len(ps[0].Results) == 1 && len(calls(ps[0])) == 1 && len(nonLocalStores(ps[0])) == 0 {
 						m, _, args, isC := callParts(ps[0].Results[0])
 						if isC && m == "Combine" && len(args) == 3 && args[0].Op == "field" && args[0].Aux == sgF && paramOf(args[0].Args[0], fn, 0) &&
@@ -460,4 +460,62 @@ func checkEqual(c *core.Ctx, fn *ssa.Function) {
 		ok, why = false, "Equal does not cover both a == b and a != b"
 	}
 	c.Check(ok, "eq-term", name, fn.Pos(), "a == b", "%s", why)
+}
+
+
+// dropNilGuardPanics: the laws are stated for instances that were built from functions; a path that does nothing but
+// find a function-valued or interface-valued part of the instance (the receiver itself, one of its fields, a
+// parameter) nil and panic is argument validation, not behaviour. Such paths are left out; what remains must satisfy
+// the rule. A panic under any other condition stays.
+func dropNilGuardPanics(ps []*ir.Path) []*ir.Path {
+	var out []*ir.Path
+	for _, p := range ps {
+		if p.Exit == ir.ExitPanic && onlyNilGuard(p) {
+			continue
+		}
+		out = append(out, p)
+	}
+	return out
+}
+
+func onlyNilGuard(p *ir.Path) bool {
+	foundNil := false
+	for i := range p.Steps {
+		st := &p.Steps[i]
+		switch st.Kind {
+		case ir.KBranch:
+			at := st.Atom
+			if at.Op != "bin" || at.Aux != "==" || len(at.Args) != 2 {
+				return false
+			}
+			var x *ir.Term
+			if at.Args[0].IsNil() {
+				x = at.Args[1]
+			} else if at.Args[1].IsNil() {
+				x = at.Args[0]
+			}
+			if x == nil {
+				return false
+			}
+			// a parameter, or a field / load reached from one
+			root := x
+			for root != nil && (root.Op == "field" || root.Op == "load" || root.Op == "faddr") && len(root.Args) > 0 {
+				root = root.Args[0]
+			}
+			if root == nil || root.Op != "param" {
+				return false
+			}
+			if st.Pol {
+				foundNil = true
+			}
+		case ir.KPanic, ir.KStore:
+			// the panic itself; stores only spill the receiver / parameters
+			if st.Kind == ir.KStore && (len(st.A) == 0 || st.A[0].Op != "alloc") {
+				return false
+			}
+		default:
+			return false
+		}
+	}
+	return foundNil
 }
